@@ -11,7 +11,7 @@ ID = "C19"
 TITLE = "R-style distribution helpers are the distributions they name"
 RULE = ("Hypothesis draws (family, function kind d/p/q/r/roundtrip/nbinom-forms, parameters in the valid "
         "range rounded to 6 significant digits, an argument placed through a uniform quantile level so "
-        "that it is spread over the whole support, log flag, integer seed, n). Oracle: closed-form "
+        "that it is spread over the whole support, log flag, integer seed, n, parameters handed over in the historical positional/keyword mix or all by keyword; in a third of the d/p/q cases the same argument is asked again for 1-2 other parameter sets and then for the first one - no answer may depend on an earlier call). Oracle: closed-form "
         "density/mass/cdf written with mpmath at 30 digits in R's parameterisation (rate, not scale); "
         "q checked through the reference cdf; r checked for same-seed equality, support and a KS test "
         "at alpha=1e-12. Non-trivial = at least one parameter differs from the function's default and "
